@@ -81,7 +81,13 @@ def answer (toks : List String) : String :=
       else match inp? with
         | none => .error .indexError
         | some inp =>
-          let r := if cls == "geo" then geoInit d inp cl wt else init d inp (optRats w)
+          -- SpatialNetwork / GeoNetwork take no weights: `net.node_weights = w` afterwards
+          let r := if cls == "geo" then geoInit d inp cl wt
+                   else if cls == "spatial" then init d inp none
+                   else init d inp (optRats w)
+          let r := if cls == "net" then r else match optRats w with
+            | none => r
+            | some ws => r.bind fun net => setWeights net (some ws)
           if attr == "none" then r else r.map fun net => setLinkAttr net (ratFn (ratMat attr))
     let r := (splitTok ops ",").foldl (applyOp cl wt) r0
     match r with
